@@ -24,11 +24,15 @@ import (
 	"github.com/buildbarn/bb-storage/pkg/blobstore/slicing"
 	"github.com/buildbarn/bb-storage/pkg/digest"
 	"github.com/buildbarn/bb-storage/pkg/eviction"
+	replicator_pb "github.com/buildbarn/bb-storage/pkg/proto/replicator"
 	"github.com/buildbarn/bb-storage/pkg/verifshim/vsched"
 	"github.com/buildbarn/bb-storage/pkg/verifshim/vsemaphore"
 	"github.com/buildbarn/bb-storage/pkg/verifshim/vsync"
+	"google.golang.org/grpc"
 	"google.golang.org/grpc/codes"
 	"google.golang.org/grpc/status"
+
+	"google.golang.org/protobuf/proto"
 
 	"verifh/ev"
 	"verifh/lstore"
@@ -130,6 +134,29 @@ type world struct {
 	seen   []codes.Code
 	where  []string
 	local  bool
+	remote bool // "remote" strategy: instance-aware model replicas, Z under another instance name
+}
+
+// inprocConn is the client connection of the remote replicator: the one RPC it issues is dispatched, in the calling
+// thread, to the repository's own ReplicatorServer over a local replicator (no transport, so that the scheduler owns
+// every step; gRPC's marshalling is not part of this property).
+type inprocConn struct{ srv replicator_pb.ReplicatorServer }
+
+func (c inprocConn) Invoke(ctx context.Context, method string, args, reply any, opts ...grpc.CallOption) error {
+	if method != replicator_pb.Replicator_ReplicateBlobs_FullMethodName {
+		vsched.HarnessFail("remote replicator invoked unexpected method %s", method)
+	}
+	resp, err := c.srv.ReplicateBlobs(ctx, proto.Clone(args.(proto.Message)).(*replicator_pb.ReplicateBlobsRequest))
+	if err != nil {
+		return err
+	}
+	proto.Merge(reply.(proto.Message), resp)
+	return nil
+}
+
+func (c inprocConn) NewStream(ctx context.Context, desc *grpc.StreamDesc, method string, opts ...grpc.CallOption) (grpc.ClientStream, error) {
+	vsched.HarnessFail("remote replicator opened a stream %s", method)
+	return nil, nil
 }
 
 func newReplica(name string, local bool, w *world) *replica {
@@ -139,7 +166,11 @@ func newReplica(name string, local bool, w *world) *replica {
 		r.store = lstore.Open(g, lstore.NewMedia(g))
 		r.ba = &faulty{BlobAccess: r.store.BA, name: name, budget: &w.budget, seen: &w.seen, where: &w.where}
 	} else {
-		r.model = sim.NewModel(name, digest.KeyWithoutInstance)
+		kf := digest.KeyWithoutInstance
+		if w.remote {
+			kf = digest.KeyWithInstance
+		}
+		r.model = sim.NewModel(name, kf)
 		r.ba = &faulty{BlobAccess: r.model, name: name, budget: &w.budget, seen: &w.seen, where: &w.where}
 	}
 	return r
@@ -196,6 +227,8 @@ func mkReplicator(kind string, source, sink blobstore.BlobAccess, configured boo
 	}
 	base := replication.NewLocalBlobReplicator(source, sink)
 	switch kind {
+	case "remote":
+		return replication.NewRemoteBlobReplicator(source, inprocConn{replication.NewReplicatorServer(base)})
 	case "dedup":
 		return replication.NewDeduplicatingBlobReplicator(base, sink, digest.KeyWithoutInstance)
 	case "limit":
@@ -209,12 +242,18 @@ func mkReplicator(kind string, source, sink blobstore.BlobAccess, configured boo
 }
 
 func newWorld(local bool, repl string, placement int, wiringChoice bool) *world {
-	w := &world{local: local}
+	w := &world{local: local, remote: repl == "remote"}
 	w.a = newReplica("replica A", local, w)
 	w.b = newReplica("replica B", local, w)
 	parent := lstore.CASObj("X", "", objContents[0])
 	w.slicer = lstore.NewFixedSlicer("", parent.Content, 3)
-	w.objs = []lstore.Obj{parent, lstore.CASObj("Z", "", objContents[1])}
+	zInstance := ""
+	if w.remote {
+		// replicas that tell instance names apart, and a second object under another instance name: an
+		// existence check over {X, Z} spans two instance names
+		zInstance = "j"
+	}
+	w.objs = []lstore.Obj{parent, lstore.CASObj("Z", zInstance, objContents[1])}
 	var pa, pb []lstore.Obj
 	for i, o := range w.objs {
 		p := (placement >> (2 * i)) & 3
@@ -231,7 +270,7 @@ func newWorld(local bool, repl string, placement int, wiringChoice bool) *world 
 	w.b.age(pb)
 	// sequential scenarios on model replicas: hand-wired or configuration-built replicators (free choice);
 	// local-store replicas and the concurrent scenarios (many executions): always the configuration-built ones
-	configured := !wiringChoice || vsched.ChooseFree("replicators built by NewBlobReplicatorFromConfiguration", 2) == 1
+	configured := repl != "remote" && (!wiringChoice || vsched.ChooseFree("replicators built by NewBlobReplicatorFromConfiguration", 2) == 1)
 	w.m = mirrored.NewMirroredBlobAccess(w.a.ba, w.b.ba, mkReplicator(repl, w.a.ba, w.b.ba, configured), mkReplicator(repl, w.b.ba, w.a.ba, configured))
 	return w
 }
@@ -531,8 +570,8 @@ func main() {
 	depth := ev.Pick(r, 2, 3)
 	budget := time.Duration(ev.Pick(r, 60, 600)) * time.Second
 	for _, local := range []bool{false, true} {
-		for _, repl := range []string{"local", "dedup", "limit", "queued"} {
-			if local && repl == "queued" {
+		for _, repl := range []string{"local", "dedup", "limit", "queued", "remote"} {
+			if local && (repl == "queued" || repl == "remote") {
 				continue
 			}
 			kind := "model"
